@@ -247,7 +247,7 @@ class C19(Prop):
                 continue
             if c["kind"] == "get":
                 want = [vec(t) for t in c["texts"]]
-                if list(map(list, r)) != want:
+                if r is None or [list(x) if x is not None else None for x in r] != want:
                     out.violate("wrong-vector", "get:cache=%s" % (knobs["cache"] or {}).get("store"),
                                 "client %d _get_embeddings(%r) returned vectors %r; the model gives %r" % (ci, c["texts"], _brief(r), _brief(want)))
             elif c["kind"] == "batch":
